@@ -253,10 +253,6 @@ fn calculate_path(
     bufs: &mut CurveBuffers,
     optimized_len: &mut f64,
 ) {
-    if points.is_empty() {
-        return;
-    }
-
     let CurveBuffers {
         vertices,
         bezier,
@@ -266,6 +262,10 @@ fn calculate_path(
 
     path.clear();
     *optimized_len = 0.0;
+
+    if points.is_empty() {
+        return;
+    }
 
     vertices.clear();
     vertices.extend(points.iter().map(|p| p.pos));
